@@ -97,6 +97,8 @@ var targets = []target{
 	{"pkg/socketcan", "frame.transceiverError"},
 	{"pkg/socketcan", "frame.encodeFrame"},
 	{"pkg/socketcan", "frame.decodeFrame"},
+	{"pkg/socketcan", "frame.marshalBinary"},
+	{"pkg/socketcan", "frame.unmarshalBinary"},
 }
 
 const modPath = "go.einride.tech/can"
@@ -187,6 +189,8 @@ func (t lty) lean() string {
 		if t.name != "" {
 			return t.name
 		}
+	case "sl":
+		return "BitVec 128"
 	}
 	refuse("no Lean type for %v", t.kind)
 	return ""
@@ -227,6 +231,11 @@ func ltype(T types.Type) lty {
 		}
 	case *types.Struct:
 		return lty{kind: "struct", st: u, goT: T}
+	case *types.Slice:
+		if b, ok := u.Elem().Underlying().(*types.Basic); ok && b.Kind() == types.Uint8 {
+			// a byte slice: its first 16 bytes are modelled (a 128-bit vector) together with its length
+			return lty{kind: "sl"}
+		}
 	case *types.Interface:
 		if T.String() == "error" {
 			return lty{kind: "err"}
@@ -308,6 +317,7 @@ type ctx struct {
 	recvObj    types.Object         // the pointer parameter the function mutates (known in the recv pass)
 	cands      map[types.Object]int // pointer parameters that may be mutated -> Go-level argument index
 	mutated    map[types.Object]bool
+	slLen      map[types.Object]string // byte-slice parameter -> Lean name of its length
 	ret        lty
 	hasRet     bool
 	fresh      int
@@ -426,6 +436,17 @@ func (c *ctx) expr(e ast.Expr, en *env) string {
 		return c.call(x, en, true)
 	case *ast.IndexExpr:
 		at := ltype(c.typeOf(x.X))
+		if at.kind == "sl" {
+			w := c.window(x.X, en)
+			v := c.p.info.Types[x.Index].Value
+			if v == nil {
+				refuse("index into a byte slice that is not a constant")
+			}
+			k, _ := constant.Int64Val(constant.ToInt(v))
+			w.lo = int(k)
+			c.windowOk(w, 1, en)
+			return c.windowRead(w, 1)
+		}
 		if at.kind != "arr" {
 			refuse("index of %s", c.typeOf(x.X))
 		}
@@ -651,39 +672,55 @@ func (c *ctx) call(x *ast.CallExpr, en *env, wantValue bool) string {
 			}
 		}
 	}
-	// intrinsics: encoding/binary on the whole array, math/bits byte reversal
+	// intrinsics: encoding/binary on byte windows, copy, math/bits byte reversal
+	if id, ok := x.Fun.(*ast.Ident); ok && id.Name == "copy" {
+		if _, isBuiltin := c.p.info.Uses[id].(*types.Builtin); isBuiltin {
+			if wantValue {
+				refuse("result of copy is used")
+			}
+			dst := c.window(x.Args[0], en)
+			src := c.window(x.Args[1], en)
+			n := dst.n
+			if src.n >= 0 && (n < 0 || src.n < n) {
+				n = src.n
+			}
+			if n < 0 {
+				refuse("copy between two open-ended slices")
+			}
+			// an open-ended side must be at least n bytes long for the copy to be the n-byte move modelled here
+			c.windowOk(dst, n, en)
+			c.windowOk(src, n, en)
+			return c.windowWrite(dst, n, c.windowRead(src, n), en)
+		}
+	}
 	if se, ok := x.Fun.(*ast.SelectorExpr); ok {
 		if in, ok := se.X.(*ast.SelectorExpr); ok {
 			if id, ok := in.X.(*ast.Ident); ok {
 				if pn, ok := c.p.info.Uses[id].(*types.PkgName); ok && pn.Imported().Path() == "encoding/binary" &&
 					(in.Sel.Name == "LittleEndian" || in.Sel.Name == "BigEndian") && len(x.Args) >= 1 {
-					sl, ok := x.Args[0].(*ast.SliceExpr)
-					if !ok || sl.Low != nil || sl.High != nil || sl.Max != nil || ltype(c.typeOf(sl.X)).kind != "arr" {
-						refuse("encoding/binary on something other than the whole 8-byte array at %s", c.p.fset.Position(x.Pos()))
-					}
-					arr := c.expr(sl.X, en)
 					le := in.Sel.Name == "LittleEndian"
-					switch se.Sel.Name {
-					case "Uint64":
-						if le {
-							return arr
-						}
-						return "(bswap64 " + arr + ")"
-					case "PutUint64":
-						v := c.expr(x.Args[1], en)
-						if !le {
-							v = "(bswap64 " + v + ")"
-						}
-						ro := c.rootObj(sl.X)
-						if ro == nil {
-							refuse("PutUint64 target")
-						}
-						c.markMut(ro)
-						n := c.name("d")
-						en.vars[ro] = n
-						return "§let " + n + " : BitVec 64 := " + v + "§"
+					nb := map[string]int{"Uint16": 2, "Uint32": 4, "Uint64": 8, "PutUint16": 2, "PutUint32": 4, "PutUint64": 8}[se.Sel.Name]
+					if nb == 0 {
+						refuse("encoding/binary.%s.%s", in.Sel.Name, se.Sel.Name)
 					}
-					refuse("encoding/binary.%s.%s", in.Sel.Name, se.Sel.Name)
+					w := c.window(x.Args[0], en)
+					if w.n >= 0 && w.n < nb {
+						refuse("encoding/binary on a window of %d bytes", w.n)
+					}
+					c.windowOk(w, nb, en)
+					swap := func(v string) string {
+						if le {
+							return v
+						}
+						return fmt.Sprintf("(bswapN %d %s)", nb, v)
+					}
+					if strings.HasPrefix(se.Sel.Name, "Put") {
+						if wantValue {
+							refuse("value of PutUint")
+						}
+						return c.windowWrite(w, nb, swap(c.expr(x.Args[1], en)), en)
+					}
+					return swap(c.windowRead(w, nb))
 				}
 			}
 		}
@@ -827,6 +864,122 @@ func (c *ctx) structValue(o types.Object, en *env) string {
 		return base[len("¶"):]
 	}
 	return "{ " + base[len("¶"):] + " with " + strings.Join(ups, ", ") + " }"
+}
+
+// win is a run of bytes inside an array ([8]byte as 64 bits) or a byte slice (first 16 bytes as 128 bits)
+type win struct {
+	base  string       // Lean expression of the whole container
+	width int          // 64 or 128
+	lo    int          // first byte
+	n     int          // number of bytes, -1 = up to the end of a slice of dynamic length
+	root  types.Object // variable to rebind on a write (nil for a struct field)
+	field *ast.SelectorExpr
+	lenE  string // Lean expression of the slice length (slices only)
+}
+
+// window resolves `x[lo:hi]`, `x[:]`, `x` for an array variable, an array field of a struct parameter or a byte-slice parameter
+func (c *ctx) window(e ast.Expr, en *env) win {
+	lo, hi := 0, -1
+	inner := e
+	if sl, ok := e.(*ast.SliceExpr); ok {
+		if sl.Max != nil {
+			refuse("three-index slice")
+		}
+		cst := func(x ast.Expr) int {
+			v := c.p.info.Types[x].Value
+			if v == nil {
+				refuse("slice bound that is not a constant at %s", c.p.fset.Position(x.Pos()))
+			}
+			n, _ := constant.Int64Val(constant.ToInt(v))
+			return int(n)
+		}
+		if sl.Low != nil {
+			lo = cst(sl.Low)
+		}
+		if sl.High != nil {
+			hi = cst(sl.High)
+		}
+		inner = sl.X
+	}
+	t := ltype(c.typeOf(inner))
+	w := win{lo: lo, n: -1}
+	switch t.kind {
+	case "arr":
+		w.width = 64
+		if hi < 0 {
+			hi = 8
+		}
+		if hi > 8 || lo > hi {
+			refuse("slice bounds out of the array")
+		}
+		w.n = hi - lo
+	case "sl":
+		w.width = 128
+		if hi >= 0 {
+			if lo > hi {
+				refuse("slice bounds")
+			}
+			w.n = hi - lo
+		}
+	default:
+		refuse("slice of %s", c.typeOf(inner))
+	}
+	w.base = c.expr(inner, en)
+	if se, ok := inner.(*ast.SelectorExpr); ok {
+		w.field = se
+	} else {
+		w.root = c.rootObj(inner)
+		if w.root == nil {
+			refuse("slice of something that is not a variable")
+		}
+	}
+	if t.kind == "sl" {
+		if w.root == nil || c.slLen[w.root] == "" {
+			refuse("byte slice that is not a parameter")
+		}
+		w.lenE = c.slLen[w.root]
+	}
+	return w
+}
+
+// windowOk records that bytes lo..lo+n of the window exist (slices: inside the length and inside the 16 modelled bytes)
+func (c *ctx) windowOk(w win, n int, en *env) {
+	if w.width == 64 {
+		return
+	}
+	if w.lo+n > 16 {
+		en.oks = append(en.oks, "false")
+		return
+	}
+	en.oks = append(en.oks, fmt.Sprintf("(BitVec.ule %d#64 %s)", w.lo+n, w.lenE))
+}
+
+func (c *ctx) windowRead(w win, n int) string {
+	return fmt.Sprintf("(BitVec.setWidth %d (%s >>> %d))", 8*n, w.base, 8*w.lo)
+}
+
+// windowWrite stores the 8n-bit value v at the window and rebinds the container
+func (c *ctx) windowWrite(w win, n int, v string, en *env) string {
+	mask := new(big.Int).Sub(new(big.Int).Lsh(big.NewInt(1), uint(8*n)), big.NewInt(1))
+	nv := fmt.Sprintf("((%s &&& ~~~ (%s#%d <<< %d)) ||| ((BitVec.setWidth %d %s) <<< %d))", w.base, mask.String(), w.width, 8*w.lo, w.width, v, 8*w.lo)
+	if w.field != nil {
+		ro := c.rootObj(w.field.X)
+		base, ok := en.vars[ro]
+		if ro == nil || !ok || !strings.HasPrefix(base, "¶") {
+			refuse("write into a field of something other than a struct parameter")
+		}
+		if _, ok := c.cands[ro]; !ok {
+			refuse("write into a field of a struct that is not passed by pointer")
+		}
+		c.markMut(ro)
+		nm := c.name(w.field.Sel.Name)
+		en.vars[fieldKey(ro, w.field.Sel.Name)] = nm
+		return "§let " + nm + " : BitVec 64 := " + nv + "§"
+	}
+	c.markMut(w.root)
+	nm := c.name("d")
+	en.vars[w.root] = nm
+	return fmt.Sprintf("§let %s : BitVec %d := %s§", nm, w.width, nv)
 }
 
 func (c *ctx) rootObj(e ast.Expr) types.Object {
@@ -1342,6 +1495,18 @@ func (c *ctx) store(lhs ast.Expr, v string, en *env, o *out) {
 		c.markMut(ro)
 		c.bind(ro, "d", ltype(ro.Type()), v, en, o)
 	case *ast.IndexExpr:
+		if ltype(c.typeOf(l.X)).kind == "sl" {
+			w := c.window(l.X, en)
+			cv := c.p.info.Types[l.Index].Value
+			if cv == nil {
+				refuse("index into a byte slice that is not a constant")
+			}
+			k, _ := constant.Int64Val(constant.ToInt(cv))
+			w.lo = int(k)
+			c.windowOk(w, 1, en)
+			c.evs(c.windowWrite(w, 1, v, en), o)
+			return
+		}
 		ro := c.rootObj(l.X)
 		if ro == nil || ltype(ro.Type()).kind != "arr" {
 			refuse("indexed assignment")
@@ -1469,7 +1634,7 @@ func translate(repo string, tg target) {
 	}
 	for _, mode := range modes {
 		c := &ctx{p: p, repo: repo, fd: fd, fields: map[string]lty{}, ret: rett, hasRet: res.hasRet, rets: rets,
-			cands: map[types.Object]int{}, mutated: mutated}
+			cands: map[types.Object]int{}, mutated: mutated, slLen: map[types.Object]string{}}
 		if mode == "recv" {
 			// the passes before this one have found which pointer parameter is assigned through
 			if len(mutated) > 1 {
@@ -1496,13 +1661,19 @@ func translate(repo string, tg target) {
 			en.vars[o] = id.Name
 			params = append(params, id.Name)
 			decl = append(decl, "("+id.Name+" : "+t.lean()+")")
+			if t.kind == "sl" {
+				// the length of the slice travels with it
+				params = append(params, id.Name+"_len")
+				decl = append(decl, "("+id.Name+"_len : BitVec 64)")
+				c.slLen[o] = id.Name + "_len"
+			}
 		}
 		goIdx := 0
 		res.goStruct = nil
 		note := func(id *ast.Ident) {
 			T := p.info.Defs[id].Type()
 			t := ltype(T)
-			if _, isPtr := T.(*types.Pointer); isPtr && (t.kind == "arr" || t.kind == "struct") {
+			if _, isPtr := T.(*types.Pointer); (isPtr && (t.kind == "arr" || t.kind == "struct")) || t.kind == "sl" {
 				// a pointer to a byte array or struct: something the function may mutate
 				c.cands[p.info.Defs[id]] = goIdx
 			}
@@ -1547,6 +1718,8 @@ func translate(repo string, tg target) {
 			if c.recvObj != nil {
 				if t := ltype(c.recvObj.Type()); t.kind == "struct" {
 					recvType = declareStruct(c.recvObj.Type())
+				} else if t.kind == "sl" {
+					recvType = "BitVec 128"
 				}
 			}
 		}
@@ -1580,6 +1753,10 @@ var order []target
 
 const prelude = `/- GENERATED by harness/cmd/go2lean from /repo's working tree on every run; not committed. -/
 namespace CanVerif.Gen.Go
+
+/-- byte reversal of an n-byte value (encoding/binary.BigEndian on n bytes; stdlib, trusted) -/
+def bswapN (n : Nat) (x : BitVec (8 * n)) : BitVec (8 * n) :=
+  (List.range n).foldl (fun acc i => acc ||| (((x >>> (8 * i)) &&& 255) <<< (8 * (n - 1 - i)))) 0
 
 /-- byte i of a [8]byte held as a 64-bit vector (byte k = bits 8k..8k+7); i is the index extended to 64 bits -/
 def getByte (d : BitVec 64) (i : BitVec 64) : BitVec 8 := BitVec.setWidth 8 (d >>> (i * 8#64))
@@ -1664,7 +1841,7 @@ func main() {
 		}
 		names = append(names, l+"_ok")
 	}
-	sb.WriteString("open Lean in\nmacro \"unfold_go\" : tactic => `(tactic| simp only [getByte, setByte, bswap64, " + strings.Join(names, ", ") + "])\n\n")
+	sb.WriteString("open Lean in\nmacro \"unfold_go\" : tactic => `(tactic| simp only [getByte, setByte, bswap64, bswapN, List.range, List.range.loop, List.foldl, " + strings.Join(names, ", ") + "])\n\n")
 	sb.WriteString("end CanVerif.Gen.Go\n")
 	if err := os.WriteFile(outp, []byte(sb.String()), 0o644); err != nil {
 		fmt.Fprintln(os.Stderr, err)
